@@ -144,8 +144,8 @@ P_ = "submission_group.submitter_params"
 contract("HpcSubmitterT._create_run_script", file="jade/hpc/hpc_submitter.py", qualname="HpcSubmitter._create_run_script", strings="text",
          params=[("self", "Ref[HpcSubmitterT]"), ("config_file", "Str"), ("filename", "Str"), ("submission_group", "Ref[SubmissionGroupT]")],
          locals={"text": "List[Str]", "command": "Str", "dsub": "Str"}, call_alias={"create_script": "create_script_text"},
-         ensures=[
-             # C18/C07: the run script runs the batch's config with the GROUP's options (exit-state clause over `command` and `text`)
+         exit_ensures=[
+             # C18/C07: the run script runs the batch's config with the GROUP's options (clauses over `command` and `text` at exit)
              f'command == "jade-internal run-jobs " + config_file + " --output=" + self._output + " " '
              f'+ ("--distributed-submitter" if {P_}.distributed_submitter else "--no-distributed-submitter") '
              f'+ ("" if isnone({P_}.num_parallel_processes_per_node) else " --num-parallel-processes-per-node=" + str(val({P_}.num_parallel_processes_per_node))) '
